@@ -19,8 +19,8 @@ import (
 	"strings"
 	"time"
 
-	clog "github.com/33cn/chain33/common/log"
 	"github.com/33cn/chain33/common/crypto"
+	clog "github.com/33cn/chain33/common/log"
 	"github.com/33cn/chain33/types"
 	"verif/vnode"
 	"verif/vnode/vfx"
@@ -455,6 +455,71 @@ func runCase(r *vx.Run, w *world, nf nameForm, acts []action, lc localClass) (ou
 	return
 }
 
+// runGroupCase: the program is the SECOND member of a transaction group whose first member (same
+// executor) legitimately wrote and reported the same key. The rule speaks of every transaction, so
+// the second member is judged exactly like a stand-alone one; a group fails as a whole.
+func runGroupCase(r *vx.Run, w *world, nf nameForm, a action) (out []finding) {
+	add := func(fp, f string, x ...interface{}) { out = append(out, finding{fp, fmt.Sprintf(f, x...)}) }
+	tag := nf.Driver + "/" + nf.Form
+	nonce += 3
+	pre := &vfx.Prog{Exec: []vfx.Step{{Op: "set", K: a.Key, V: "pre"}}}
+	p := &vfx.Prog{Exec: []vfx.Step{{Op: a.Op, K: a.Key, V: "v0"}}}
+	rd := &vfx.Prog{Exec: []vfx.Step{{Op: "get", K: a.Key}}}
+	g, err := vfx.Group(gcfg, []*types.Transaction{vfx.NewTx(gcfg, nf.Name, pre, fee, nonce), vfx.NewTx(gcfg, nf.Name, p, fee, nonce+1)}, gkey)
+	if err != nil {
+		add("HARNESS", "group: %v", err)
+		return
+	}
+	readerName := nf.Driver
+	if w.para {
+		readerName = paraTitl + nf.Driver
+	}
+	txs := append(g, vfx.SignedTx(gcfg, readerName, rd, fee, nonce+2, gkey))
+	ok2, why := stateVerdict(nf, []action{a})
+	list := &types.ExecTxList{StateHash: w.parent.StateHash, ParentHash: w.parent.Hash(gcfg), Txs: txs,
+		BlockTime: w.parent.BlockTime + 1, Height: w.parent.Height + 1, Difficulty: bits}
+	var data interface{}
+	if pn := vx.Catch(func() { data, err = send(w.n, "execs", types.EventExecTxList, list) }); pn != "" {
+		err = fmt.Errorf("%s", pn)
+	}
+	if err != nil {
+		add("exec-tx-list-fails:group:"+vx.Norm(err.Error(), 40)+":"+tag, "EventExecTxList answered %v", err)
+		return
+	}
+	rc, _ := data.(*types.Receipts)
+	if rc == nil || len(rc.Receipts) != 3 {
+		add("receipt-count", "EventExecTxList reply %T", data)
+		return
+	}
+	seen := ""
+	for _, o := range vfx.ObsOf(rc.Receipts[2].Logs) {
+		if o.Err == "" && o.K == a.Key {
+			seen = o.V
+		}
+	}
+	if r != nil {
+		r.Count("evaluations", 1)
+		r.Count("group_cases", 1)
+		r.Seen("distinct", fmt.Sprintf("%s|group-second-member:%s|ok=%v|ty%d,%d", tag, a.Class, ok2, rc.Receipts[0].Ty, rc.Receipts[1].Ty))
+	}
+	t1, t2 := rc.Receipts[0].Ty, rc.Receipts[1].Ty
+	if !ok2 {
+		if t2 == types.ExecOk || t1 == types.ExecOk {
+			add("forbidden-write-accepted:group-second-member:"+strings.Join(why, "+")+":"+tag, "executor %s, group [set %q; %s %q]: the rule refuses the second member for %v but the receipt types are %d, %d", nf.Name, a.Key, a.Op, a.Key, why, t1, t2)
+		}
+		if seen != "" {
+			add("refused-group-writes-visible-to-next-transaction:"+a.Class+":"+tag, "executor %s, group [set %q; %s %q]: the next transaction reads %q", nf.Name, a.Key, a.Op, a.Key, seen)
+		}
+		return
+	}
+	if t1 != types.ExecOk || t2 != types.ExecOk {
+		add("allowed-write-refused:group-second-member:"+a.Class+":"+tag, "executor %s, group [set %q; %s %q]: the rule allows it but the receipt types are %d, %d", nf.Name, a.Key, a.Op, a.Key, t1, t2)
+	} else if a.Op == "set" && seen != "v0" {
+		add("successful-write-not-visible:group-second-member:"+a.Class+":"+tag, "executor %s: key %q written by the second member reads %q afterwards", nf.Name, a.Key, seen)
+	}
+	return
+}
+
 func describe(acts []action) []string {
 	var out []string
 	for _, a := range acts {
@@ -546,6 +611,20 @@ func main() {
 			fmt.Println("HARNESS-ERROR", err)
 			r.Finish()
 		}
+		if k.Local == "group-second-member" {
+			for _, nf := range nameForms(k.Para) {
+				for _, a := range actions(nf) {
+					if nf.Name == k.Name && len(k.State) == 1 && a.Class == k.State[0] {
+						for _, f := range runGroupCase(r, w, nf, a) {
+							fmt.Printf("replay: %s: %s\n", f.FP, f.What)
+							r.Violate(f.FP, f.What, k, nil)
+						}
+					}
+				}
+			}
+			w.close()
+			r.Finish()
+		}
 		nf, acts, lc, ok := find(k.Para, k)
 		if !ok {
 			fmt.Println("REPLAY-ERROR unknown case")
@@ -586,6 +665,30 @@ func main() {
 		i := 0
 		for _, nf := range nameForms(p) {
 			acts := actions(nf)
+			// group part: every action on a key the executor may write, as second member after a legitimate writer
+			for _, a := range acts {
+				a := a
+				if !allowedKey(nf, a.Key) || sub != 0 {
+					continue
+				}
+				k := kase{Para: p, Name: nf.Name, Local: "group-second-member", State: []string{a.Class}, Keys: []string{a.Op + " " + a.Key}}
+				for _, f := range runGroupCase(r, w, nf, a) {
+					f := f
+					if f.FP == "HARNESS" {
+						r.Note("HARNESS-ERROR %s: %s", vx.J(k), f.What)
+						r.Cap("harness error")
+						continue
+					}
+					r.Violate(f.FP, f.What, k, func() string {
+						for _, g := range runGroupCase(nil, w, nf, a) {
+							if g.FP == f.FP {
+								return g.What
+							}
+						}
+						return ""
+					})
+				}
+			}
 			for _, idx := range combos(len(acts), maxActs) {
 				for _, lc := range localClasses(nf) {
 					i++
